@@ -864,6 +864,9 @@ class Connection(object):
         elif not conn.connected_event.is_set():
             conn.close()
             raise OperationTimedOut("Timed out creating connection (%s seconds)" % timeout)
+        elif conn.is_closed:
+            # close() (e.g. the server hung up during the handshake) also sets connected_event
+            raise ConnectionShutdown("Connection to %s was closed during the handshake" % (endpoint,))
         else:
             return conn
 
